@@ -249,7 +249,7 @@ def check_class(rep, py, mm, cn, cls, props, owner, stats):
                 stats["validator_probes"] += 4
                 if not probe(f.validator, f, t["value"]):
                     rep.fail("literal property rejects its literal", {"where": where})
-                for bad in (t["value"] + "x", "", 5):
+                for bad in (t["value"] + "x", "" if t["value"] != "" else " ", 5):
                     if probe(f.validator, f, bad):
                         rep.fail("literal property accepts another value", {"where": where, "value": repr(bad)})
         elif bk:
